@@ -41,7 +41,7 @@ example : Cfg.fixed.total = true := by decide
 
 /-- non-vacuity: a type with every constructor of the universe is supported -/
 example : wfTy (.struct .mutable (.cons 0 false false (.seq (.struct .appendable
-    (.cons 0 true false (.arr (.enum .i16 [1, 2]) 3) (.cons 1 false true .str .nil)))) (.cons 7 true false (.prim .u64) .nil))) = true := by
+    (.cons 0 true false (.arr (.enum .i16 [1, 2] .final) 3) (.cons 1 false true .str .nil)))) (.cons 7 true false (.prim .u64) .nil))) = true := by
   decide
 
 def tyMutU8 : Ty := .struct .mutable (.cons 0 false false (.prim .u8) .nil)
